@@ -98,6 +98,13 @@ CHECKS = {
  "C36": ("exploration", "managed-mode compaction driver + read-invariance oracle at arbitrary read timestamps against the MVCC model",
          "Managed driver histories with CommitAt at non-monotonic and repeated timestamps, managed write batches with per-entry versions, flush/compaction steps incl. L0->L0, snapshots at arbitrary timestamps and SetDiscardTs movement; after every step reads at the newest timestamp, through snapshots and at sampled timestamps >= discardTs are compared with the model; two families: per-key monotone timestamps (must be clean) and fully arbitrary timestamps (known finding listed).",
          "Timestamps above the discard ts; SetDiscardTs never above an open read ts.", "4/C36"),
+
+ "C29": ("exploration", "sequential drop scripts vs model (+ re-open, structure validator); concurrent blind-writer histories with drops classified by call/return order; race detector",
+         "Sequential scripts with DropPrefix over hostile prefixes and DropAll between commits/batches/flushes/compactions, state compared with the model after every drop and after re-open; concurrent histories where DropPrefix runs 2-4 times against 6 blind writers: writes acknowledged before the call gone, writes after the return present, overlapping ones all-or-nothing per transaction, other keys unchanged, ErrBlockedWrites leaves no trace, writes accepted afterwards; concurrent DropAll: nothing acknowledged before the call survives.",
+         "Concurrent clients are blind writers; crash points inside drops belong to the crash engine (C08).", "4/C29"),
+ "C37": ("exploration", "twin run of one pre-drawn script on an InMemory and an on-disk database + strace of an InMemory child process",
+         "Scripts (transactions, write batches, flush, compactions, DropPrefix, DropAll) executed on both databases; after every step both are compared with the model and line by line with each other; an InMemory child runs under strace -f in an empty directory: no file-creating/writing syscall, directory stays empty.",
+         "Values within the in-memory limit; no GC.", "4/C37"),
 }
 
 def hooks_commits():
